@@ -19,7 +19,8 @@ RULE = ("left documents x merge paths x right documents x policies.  Small part:
         "targets), a missing key / index below every container (creatable: one and two segments, list padding), a key below "
         "every scalar and a search that matches nothing (not creatable)} x every right document with <= 2 nodes (every root kind; "
         "thorough: also every one with 3 nodes) x 4 of the 180 hash x array x aoh x set combinations rotating through all of them "
-        "(quick) / all 180 for the <= 2-node right documents (thorough).  Random part: left documents of up to ~25 nodes (maps, lists, arrays-of-hashes, sets, "
+        "(quick) / 60 of the 180 for the <= 2-node right documents (thorough: every hash x array x aoh combination for every left x path x right, "
+        "the set policy rotating through its 3 values from case to case; all 180 = 23.6 M cases made the thorough run 37 min).  Random part: left documents of up to ~25 nodes (maps, lists, arrays-of-hashes, sets, "
         "empty containers), a target chosen in them, merge paths {exact in dot or slash notation, wildcard / search / "
         "attribute-search / slice / traversal variants yielding several targets, missing creatable tails of 1-3 segments, "
         "not creatable}, right documents derived from the targeted node (shared keys, kind clashes) or random of every root "
@@ -47,7 +48,9 @@ RULE = ("left documents x merge paths x right documents x policies.  Small part:
         "missing keys, right documents that are mappings holding arrays / arrays-of-hashes, arrays, arrays-of-hashes, scalars; "
         "judged on the real code alone: where the real optional query (run on a twin) creates the tail, the merged document "
         "holds exactly the right-hand document there, and apart from the created nodes (and the targets that existed, which are "
-        "not judged in this part) it equals the left document as data; the merge must not be refused.  strip_path_prefix is compared with the model on a grid of key paths.  distinct_nontrivial = "
+        "not judged in this part) it equals the left document as data; the merge must not be refused.  strip_path_prefix is compared with the model on a grid of key paths.  Random part: 160 000 cases "
+        "(quick) / 300 000 (thorough; trimmed from 2 000 000 - a random case costs ~12 small-layer cases and the thorough run needed "
+        "> 14 000 CPU-seconds, > 45 min on the shared machine; the complete small layers are untouched).  distinct_nontrivial = "
         "distinct (l, path, r, policy) cases whose result differs from the left document.")
 
 SCAL_R = [1, 5, 0, "x", "b", "new", True, False, 2.5, "", "5", "true", "1.50", "-3", "False", "long text"]
@@ -1326,14 +1329,17 @@ def run(chk: core.Check):
             l4 = mg.docs_of_size(lb + 1)
             r3 = mg.docs_of_size(3)
             rng.shuffle(l4)
-            grids = [(small_l, small_r, 180, 1), (small_l, r3, 4, 4), (l4, small_r, 2, 50)]
+            # 60 of 180 = every third combination: all hash x array x aoh combinations for every (left, path, right), the
+            # set policy rotating with the case number (all 180 made 23.6 M cases, 37 min together with the rest)
+            grids = [(small_l, small_r, 60, 3), (small_l, r3, 4, 4), (l4, small_r, 2, 50)]
             bound = ("all %d left documents with <= %d nodes x their whole path vocabulary x {all %d right documents with <= 2 "
-                     "nodes x all 180 policy combinations; all %d right documents with 3 nodes x 4 of 180 (rotating)}; all %d "
+                     "nodes x 60 of the 180 policy combinations (all 60 hash x array x aoh combinations, the set policy rotating "
+                     "through its 3 values); all %d right documents with 3 nodes x 4 of 180 (rotating)}; all %d "
                      "left documents with %d nodes x vocabulary x right documents <= 2 nodes x 2 of 180 (rotating)" % (
                          len(small_l), lb, len(small_r), len(r3), len(l4), lb + 1))
         for lefts, rights, npol, per in grids:
             jobs += [("EXH", lefts[i:i + per], rights, npol, off + i * 50) for i in range(0, len(lefts), per)]
-        nrand = int(os.environ.get("YPV_NRAND") or (160000 if tier == "quick" else 2000000))
+        nrand = int(os.environ.get("YPV_NRAND") or (160000 if tier == "quick" else 300000))
         per_job = 2000
         jobs += [("RAND", chk.seed * 100003 + i, per_job) for i in range(nrand // per_job)]
         nmc = int(os.environ.get("YPV_NMC") or (12000 if tier == "quick" else 200000))
